@@ -178,6 +178,34 @@ class Intifier:
                 return (a[0] * (1 << ch[1].as_long())) % M
             if k == z3.Z3_OP_BLSHR and z3.is_bv_value(ch[1]):
                 return a[0] / (1 << ch[1].as_long())
+            if k == z3.Z3_OP_BAND and len(ch) == 2 and any(z3.is_bv_value(c) for c in ch):
+                ci = 0 if z3.is_bv_value(ch[0]) else 1
+                mask = ch[ci].as_long()
+                if mask & (mask + 1) == 0:  # a low mask 2^k - 1 (shift-amount masking): x mod 2^k
+                    return a[1 - ci] % (mask + 1)
+            if k == z3.Z3_OP_BLSHR and z3.is_bv_value(ch[0]):
+                # constant >> symbolic amount: a finite case distinction over the amounts that leave a non-zero result
+                c = ch[0].as_long()
+                r = z3.IntVal(0)
+                for sh in reversed(range(c.bit_length())):
+                    r = z3.If(a[1] == sh, z3.IntVal(c >> sh), r)
+                return r
+            if k == z3.Z3_OP_BSHL and z3.is_bv_value(ch[0]):
+                c = ch[0].as_long()
+                r = z3.IntVal(0)
+                for sh in reversed(range(w)):
+                    r = z3.If(a[1] == sh, z3.IntVal((c << sh) % M), r)
+                return r
+            if k == z3.Z3_OP_BLSHR:
+                r = z3.IntVal(0)  # shift amounts >= w give 0
+                for sh in reversed(range(w)):
+                    r = z3.If(a[1] == sh, a[0] / (1 << sh), r)
+                return r
+            if k == z3.Z3_OP_BSHL:
+                r = z3.IntVal(0)
+                for sh in reversed(range(w)):
+                    r = z3.If(a[1] == sh, (a[0] * (1 << sh)) % M, r)
+                return r
             if k == z3.Z3_OP_BUMUL_NO_OVFL:
                 return a[0] * a[1] < M
             raise NotInFragment('bit-vector operator %s' % t.decl().name())
